@@ -47,7 +47,7 @@ def check_safe(case):
     cls = A.RandomSizedBBoxSafeCrop if sized else A.BBoxSafeRandomCrop
     pipe = A.ReplayCompose([cls(**kw)], bbox_params=A.BboxParams('pascal_voc_3d', min_volume=0.0, min_planar_area=0.0))
     boxes = [tuple(b) for b in case['boxes']]
-    random.seed(case['seed'])
+    R.seed(case['seed'])
     try:
         res = pipe(image=img, bboxes=boxes)
     except Exception as e:  # noqa
@@ -121,7 +121,7 @@ def check_near(case):
                            keypoint_params=A.KeypointParams('xyz', remove_invisible=False))
     boxes = [tuple(b) for b in case['boxes']]
     kps = [tuple(k) for k in case['kps']]
-    random.seed(case['seed'])
+    R.seed(case['seed'])
     try:
         res = pipe(image=img, bboxes=boxes, keypoints=kps, cropping_bbox=ref)
     except Exception as e:  # noqa
@@ -137,6 +137,8 @@ def check_near(case):
     x0, y0, z0 = p['x_min'], p['y_min'], p['z_min']
     x1, y1, z1 = min(p['x_max'], W), min(p['y_max'], H), min(p['z_max'], D)
     out = res['image']
+    if min(out.shape) < 1:
+        return ('empty-window', 'image %s' % (out.shape,), 'a non-empty window (the reference box lies inside the volume)')
     if out.shape != (y1 - y0, x1 - x0, z1 - z0) or not np.array_equal(out, img[y0:y1, x0:x1, z0:z1]):
         return ('image-window', 'image %s' % (out.shape,), 'the clamped window rows %d:%d cols %d:%d slices %d:%d' % (y0, y1, x0, x1, z0, z1))
     lim = (x1 - x0, y1 - y0, z1 - z0) * 2
@@ -163,7 +165,7 @@ def gen_case(rng, kind):
     shape = rng.sample([8, 10, 12, 15, 20, 24, 30], 3)
     H, W, D = shape
     if kind == 'safe':
-        case = {'kind': kind, 'shape': shape, 'seed': rng.randint(0, 10 ** 6), 'erosion': rng.choice([0.0, 0.0, 0.1, 0.2, 0.35, 0.5]),
+        case = {'kind': kind, 'shape': shape, 'seed': R.pick_seed(rng), 'erosion': rng.choice([0.0, 0.0, 0.1, 0.2, 0.35, 0.5]),
                 'boxes': gen_boxes(rng, shape, rng.randint(1, 3))}
         if rng.random() < 0.3:
             case['sized'] = [rng.randint(4, 2 * H), rng.randint(4, 2 * W), rng.randint(4, 2 * D)]
@@ -175,12 +177,9 @@ def gen_case(rng, kind):
     for i in range(rng.randint(1, 2)):
         a = inside()
         boxes.append((a[0], a[1], a[2], min(a[0] + rng.uniform(0.5, 4), W), min(a[1] + rng.uniform(0.5, 4), H), min(a[2] + rng.uniform(0.5, 4), D), 'b%d' % i))
-    shift = rng.choice([0.3, 0.1, 0, [0.1, 0.5, 0.3], [0.5, 0.0, 0.25], [0.0, 0.2, 0.6]])
-    f = shift if isinstance(shift, list) else [shift] * 3
-    ext = (ref[4] - ref[1], ref[3] - ref[0], ref[5] - ref[2])
-    if any(e - 2 * round(e * fr) < 1 for e, fr in zip(ext, f)):
-        shift = 0.1 if all(e - 2 * round(e * 0.1) >= 1 for e in ext) else 0     # keep the shifted window non-empty
-    return {'kind': kind, 'shape': shape, 'seed': rng.randint(0, 10 ** 6), 'ref': ref, 'boxes': boxes,
+    # the whole documented range [0, 1]: from 0.5 on the two faces of an axis can meet or cross
+    shift = rng.choice([0.3, 0.1, 0, [0.1, 0.5, 0.3], [0.5, 0.0, 0.25], [0.0, 0.2, 0.6], 0.5, 1, [1.0, 0.75, 0.5], [0.9, 1.0, 1.0]])
+    return {'kind': kind, 'shape': shape, 'seed': R.pick_seed(rng), 'ref': ref, 'boxes': boxes,
             'kps': [inside() for _ in range(3)], 'shift': shift}
 
 
